@@ -243,7 +243,7 @@ def _build_block(g, a, b):
     blk.add_instruction(c2)
     if g["shape"] == "chain":
         t = ir.Binop(y, g["op"], c1, "t", ty)
-        x = ir.Binop(t, g["op"], c2, "x", ty)
+        x = ir.Binop(t, g.get("op2", g["op"]), c2, "x", ty)
         blk.add_instruction(t)
     else:
         t = None
@@ -300,6 +300,51 @@ CONTRACTS.append(Contract(
     sample_inputs=_samples_ab,
     call=_block_call,
     ensures=_chain_post,
+))
+
+
+def ir_eval(v, yv):
+    """IR run-time value of a value node built from the parameter y, constants and binary operators"""
+    ir = _ir()
+    if isinstance(v, ir.Parameter):
+        return yv
+    if isinstance(v, ir.Const):
+        return v.value
+    if isinstance(v, ir.Binop):
+        return ir_binop(v.operation, v.ty, ir_eval(v.a, yv), ir_eval(v.b, yv))
+    raise Undecided("contract stale: on_block produced a %s node" % type(v).__name__)
+
+
+def _consts_of(v, acc):
+    ir = _ir()
+    if isinstance(v, ir.Const):
+        acc.append(v)
+    elif isinstance(v, ir.Binop):
+        _consts_of(v.a, acc)
+        _consts_of(v.b, acc)
+    return acc
+
+
+def _mixed_post(e):
+    """whatever on_block rewrites: the returned value is the same function of y, and every constant stays in range"""
+    ty = e.ty
+    lo, hi = lo_hi(ty)
+    from pyvc.sym import ctx, active
+    ys = [make_value(("range", lo, hi), "yv", ctx())] if active() else [lo, hi - 1, 0, 1, 77 % hi, 5]
+    out = []
+    for yv in ys:
+        before = ir_binop(e.op2, ty, ir_binop(e.op, ty, yv, e.a), e.b)
+        out.append(("the value returned after on_block == (y %s c1) %s c2 under IR semantics, for every y" % (e.op, e.op2), ir_eval(e.ret.result, yv) == before))
+    for cst in _consts_of(e.ret.result, []):
+        out.append(("constant %s in range(ty)" % cst.name, in_range(ty, cst.value)))
+    return out
+
+
+CONTRACTS.append(Contract(
+    M + ":ConstantFolder.on_block", "C38", label=M + ":ConstantFolder.on_block(chains with mixed operators: value preservation)",
+    grid=[{"op": o1, "op2": o2, "ty": t, "shape": "chain"} for o1 in ("+", "-") for o2 in ("+", "-") for t in (TYPES if tier() != "quick" else TYPES[:1] + TYPES[3:5] + TYPES[7:])],
+    modules=["ppci.ir"], make=_mk_block, replay_args=lambda g, v: _build_block(g, v["a"], v["b"]), sample_inputs=_samples_ab,
+    call=_block_call, ensures=_mixed_post,
 ))
 
 
